@@ -35,7 +35,7 @@ ASSUMPTIONS = ['reuse of one Parser object is documented as stateful and is not 
                'thread schedules are explored by stress (switch interval sweep, yield injection), not enumerated; the '
                'evidence reports how many operation pairs really overlapped']
 BUDGET_S = {'quick': 120, 'thorough': 800}
-REQUIRED_HITS = ['golden_from_fresh_process', 'sequential_call', 'entry_point_call', 'concurrent_call', 'overlapping_pairs',
+REQUIRED_HITS = ['golden_from_fresh_process', 'sequential_call', 'entry_point_call', 'concurrent_call', 'overlapping_pairs', 'concurrent_other_entry_point',
                  'yield_injected', 'shared_state_compared']
 FLOOR = {'quick': 2000, 'thorough': 10000}
 MAX_SHARDS = 16
@@ -57,6 +57,9 @@ POOL = [
     'x = a.return / 2 / 1; y = b.if (c) / 2 / d', 'p.continue\n.q()', 'o.class.x = o.in / 2 / o.new', 'a.b.c',
     # the same escape sequence at a position where it is allowed and at one where it is not
     'a\\u0030 = 1;', '\\u0030a = 1;', 'x\\u0301 = \\u00e9;', '\\u0301x = 1', 'b\\u0030c = \\u0062 + b\\u0030',
+    # empty containers of every kind: what a constructor falls back to when the source gives it nothing
+    'o = {}; a = []; f(); new G; new H(); function e() {} {} x = function () {}; switch (s) {} for (;;) ; try {} finally {}',
+    'var options = {}, list = [], g = {get p() {}, set p(v) {}}; if (a) {} else {} l: ; y = [,]; z = (function () {})()',
 ]
 
 
@@ -72,6 +75,17 @@ def fingerprint_result(text, flag, entry=0):
             k = len(text) % 3
             t = parse(text, with_comments=flag) if k == 0 else parse(text, flag) if k == 1 else \
                 (parse(text, with_comments=True) if flag else parse(text))
+        elif entry == 4:
+            # the read helper of calmjs.parse.io (and es5.read): a parse on behalf of a named stream; its result carries
+            # the stream's name by design, so it is history / company for the other calls, not compared itself
+            import io as _io
+            from calmjs.parse import io as cio
+            from calmjs.parse.parsers.es5 import parse
+            stream = _io.StringIO(text)
+            stream.name = 'streams/file %d.js' % (len(text) % 5)
+            cio.read((lambda tx: parse(tx, with_comments=True)) if flag else parse,
+                     stream if len(text) % 2 else (lambda: stream))
+            return 'printed'
         else:
             from calmjs.parse import es5
             if entry == 1:
@@ -89,6 +103,14 @@ def fingerprint_result(text, flag, entry=0):
             if isinstance(ch, list):
                 del ch[1:]
             t.lexpos = t.lineno = t.colno = -7
+            # ... nor what it adds to the containers of any node of it (an empty literal, parameter list or body is a
+            # container the caller may fill)
+            for _, n in list(vtree.reflect_walk(t)):
+                for k, v in list(vars(n).items()):
+                    if isinstance(v, list):
+                        v.append('added by the caller')
+                    elif isinstance(v, dict):
+                        v['added by the caller'] = [(-1, -1, -1)]
         except Exception:
             pass
         return fp
@@ -188,7 +210,7 @@ def check_history(gold, history, results):
 
 
 ENTRIES = ['parsers.es5.parse', 'calmjs.parse.es5(text)', 'calmjs.parse.es5.pretty_print(text)',
-           'calmjs.parse.es5.minify_print(text)']
+           'calmjs.parse.es5.minify_print(text)', 'calmjs.parse.io.read(parse, stream)']
 
 
 def selfcheck(ctx):
@@ -218,6 +240,7 @@ def concurrent_phase(ctx, gold, nthreads, per_thread, interval, inject, label, s
     logs = [[] for _ in range(nthreads)]
     rngs = [__import__('random').Random(h64('%s/%s/%s/%d' % (ctx.seed, ctx.shard, label, t))) for t in range(nthreads)]
     start = threading.Barrier(nthreads)
+    company = [0]
 
     def worker(tid):
         log = logs[tid]
@@ -225,10 +248,15 @@ def concurrent_phase(ctx, gold, nthreads, per_thread, interval, inject, label, s
         start.wait()
         for _ in range(per_thread):
             i, f = r.choice(small_pool)
+            # every other thread does a third of its operations through the other public entry points (the quick-access
+            # object, its print shortcuts, the read helper): company for the parses whose results are compared
+            entry = r.choice((1, 2, 3, 4, 4)) if (tid & 1 and r.random() < 0.34) else 0
             c = seq.next()
-            res = fingerprint_result(POOL[i], f)
+            res = fingerprint_result(POOL[i], f, entry)
             e = seq.next()
-            log.append((c, e, i, f, res))
+            log.append((c, e, i, f, res if entry < 2 else None))
+            if entry:
+                company[0] += 1
 
     old = sys.getswitchinterval()
     sys.setswitchinterval(interval)
@@ -260,13 +288,14 @@ def concurrent_phase(ctx, gold, nthreads, per_thread, interval, inject, label, s
         active_end = [(e2, t2) for (e2, t2) in active_end if e2 > c] + [(e, tid)]
         ctx.hit('concurrent_call')
         ctx.case((label, tid, c), ov > 0)
-        if res != gold[(i, f)]:
+        if res is not None and res != gold[(i, f)]:
             ctx.violation('C15:result_depends_on_concurrency', {'phase': label, 'text_index': i, 'with_comments': f},
                           'under %s (%d threads, switch interval %g%s) parse(POOL[%d]=%r, with_comments=%s) gave %s; '
                           'fresh process: %s; %d other operations were in flight' % (
                               label, nthreads, interval, ', yield injection' if inject else '', i, POOL[i][:40], f,
                               res[:100], gold[(i, f)][:100], ov))
     ctx.hit('overlapping_pairs', overlapping)
+    ctx.hit('concurrent_other_entry_point', company[0])
     ctx.count('overlapping_pairs:' + label, overlapping)
     ctx.count('operations:' + label, len(ops))
 
@@ -328,9 +357,9 @@ def run(ctx):
 
     # (a') the same through the other public entry points: every (entry, text, flag) followed by a parse
     # through parse() or through the quick-access object, over the small pool; then mixed random histories
-    small_items = [(i, f) for i in (2, 3, 7, 8, 11, 15, 27) + tuple(range(len(POOL) - 9, len(POOL))) for f in (False, True)]
+    small_items = [(i, f) for i in (2, 3, 7, 8, 11, 15, 27) + tuple(range(len(POOL) - 11, len(POOL))) for f in (False, True)]
     idx = 0
-    for first in itertools.product(small_items, (1, 2, 3)):
+    for first in itertools.product(small_items, (1, 2, 3, 4)):
         for second in itertools.product(small_items, (0, 1)):
             idx += 1
             if idx % ctx.nshards != ctx.shard:
@@ -342,7 +371,7 @@ def run(ctx):
             for mech, detail in check_history(gold, hist, results):
                 ctx.violation(mech + ':across_entry_points', {'history': [list(x) for x in hist]}, detail)
     for _ in range(ctx.pick(2, 20)):
-        hist = [rng.choice(items) + (rng.choice((0, 0, 1, 1, 2, 3)),) for _ in range(120)]
+        hist = [rng.choice(items) + (rng.choice((0, 0, 1, 1, 2, 3, 4)),) for _ in range(120)]
         results = [fingerprint_result(POOL[i], f, e) for i, f, e in hist]
         ctx.hit('entry_point_call', len(hist))
         ctx.case(('entry',) + tuple(hist), True)
